@@ -563,7 +563,9 @@ func checkObservation(obs *observation, add violSink) (nframes int, stateKeys []
 	for i, w := range writes {
 		f, n, err := parseFrame(w)
 		if err != nil || n != len(w) {
-			add("write_not_one_frame", fmt.Sprintf("Write #%d of %d bytes is not exactly one frame (parse: n=%d err=%v; first bytes %x)", i, len(w), n, err, w[:minInt(len(w), 24)]))
+			// not a violation by itself: the statement is about the byte stream, and a frame handed to the
+			// writer in several contiguous Writes still parses; the stream is re-parsed as a whole below.
+			_ = i
 			whole = false
 			break
 		}
